@@ -283,7 +283,12 @@ def main(argv=None):
         case = case.get("case", case)
         lean = leanio.Driver() if getattr(mod, "USES_MODEL", True) else None
         ctx = Ctx(pid, tier, seed, lean)
-        mod.check(ctx, case)
+        if hasattr(mod, "replay"):
+            mod.replay(ctx, case)  # e.g. a failure of a whole configuration: re-run all its start trees, then reduce
+        else:
+            mod.check(ctx, case)
+            if hasattr(mod, "finalize"):
+                mod.finalize(ctx)
         for f in ctx.oracle_failures:
             print("ORACLE-FAIL", json.dumps(f, default=str)[:2000])
         for f in ctx.corr_failures:
